@@ -56,7 +56,8 @@ def extra_checks(R, rng, tier):
             impl, rc = vlib.run_impl(path, spath)
             total += len(impl)
             for ln in sorted(set(impl) | set(ref[name])):
-                a, b = impl.get(ln), ref[name].get(ln)
+                # allocation counts are C15's subject; results, registers, statistics and section reads are compared
+                a, b = vlib.norm(impl.get(ln), keep_alloc=False), vlib.norm(ref[name].get(ln), keep_alloc=False)
                 h.update(("%s %d %s\n" % (name, ln, a)).encode())
                 if a != b and differ is None:
                     differ = (name, ln, a, b, script.lines[ln - 1][:400] if ln - 1 < len(script.lines) else "")
